@@ -13,6 +13,9 @@ C12  Predicted progeny variances equal the exact variance of the cross's gametes
 """
 import ast
 
+from sa.ctorflow import wire
+
+
 from sa.astutil import is_guard, dump, where, kwargs_of, walk_no_nested
 from sa.model import body_nodoc
 from sa.vn import path_values, RAISES, VN, Poly, VNUnknown, comparable
@@ -479,3 +482,4 @@ def run(prog, rep, tier):
     # the usefulness criterion is built from the variance at the requested selfing depth: arguments reach _calc_uc in its parameter order
     c05.check_positional(prog, rep, rule="R5-usefulness", modules=("UsefulnessCriterion",))
     rep.floor("R5-usefulness", 8)
+    wire(prog, rep, "C12", 8, 320)
